@@ -914,6 +914,10 @@ func (env *SpecEnv) evalCall(n ECall) specVal {
 		return specVal{Term{"((as const (Array " + ks + " Bool)) false)", "(Array " + ks + " Bool)"}, nil}
 	case "add", "has":
 		s, ok := env.eval(n.Args[0]).v.(Term)
+		if (!ok || !strings.HasPrefix(s.Sort, "(Array ")) && env.callSite && n.Fn == "has" {
+			// membership in a callee's ghost set, seen from a call site: nothing is known about it
+			return specVal{env.e.sym.Fresh("ghosthas", SBool), boolT}
+		}
 		if !ok || !strings.HasPrefix(s.Sort, "(Array ") {
 			sfail("%s: first argument is not a ghost set", n.Fn)
 		}
